@@ -37,6 +37,7 @@ type Val struct {
 	Tuple []Val
 	Src   *addrSrc
 	Boxed *Val
+	From  *addrSrc // the field this (map / slice) value was loaded from, for lockset checks on its contents
 }
 
 // ------------------------------------------------------------------ script
@@ -153,6 +154,8 @@ type Engine struct {
 	typeIDs      map[string]int
 	strConsts    map[string]string
 	effMemo      map[*ssa.Function]map[string]bool
+	localCells   []localCell
+	escMemo      map[ssa.Value]bool
 	qfacts       []*qfact
 	idxTerms     []string
 	idxSeen      map[string]bool
@@ -274,6 +277,9 @@ func (e *Engine) structKey(t types.Type) string {
 }
 
 func (e *Engine) sortOf(t types.Type) string {
+	if g, ok := t.(ghostType); ok {
+		return g.sort
+	}
 	switch u := t.Underlying().(type) {
 	case *types.Basic:
 		if u.Info()&types.IsBoolean != 0 {
@@ -473,7 +479,8 @@ func (e *Engine) fa(skey, fname, base string) string {
 	if !e.sc.seen[key] {
 		e.sc.seen[key] = true
 		inv := sym("fainv$" + skey + "$" + fname)
-		e.sc.assert(fmt.Sprintf("(and (= (%s %s) %s) (< %s 0))", inv, term, base, term))
+		tag := e.sc.declFun("fatag", []string{"Int"}, "Int")
+		e.sc.assert(fmt.Sprintf("(and (= (%s %s) %s) (< %s 0) (= (%s %s) %d))", inv, term, base, term, tag, term, e.typeID(types.NewVar(0, nil, "fa$"+skey+"$"+fname, types.Typ[types.Int]).Type())*0+e.faID(skey+"$"+fname)))
 	}
 	return term
 }
@@ -700,4 +707,13 @@ func sortedKeys(m map[string]bool) []string {
 	}
 	sort.Strings(ks)
 	return ks
+}
+
+func (e *Engine) faID(k string) int {
+	if id, ok := e.typeIDs["fa$"+k]; ok {
+		return id
+	}
+	id := len(e.typeIDs) + 1
+	e.typeIDs["fa$"+k] = id
+	return id
 }
